@@ -538,3 +538,50 @@ def _(run):
     def sound(kind, v, s): return z3.Implies(v.t, ns_ok) if kind == 'return' else z3.BoolVal(False)
     def exact(kind, v, s): return z3.Implies(no_exclusion, v.t == ns_ok) if kind == 'return' else z3.BoolVal(False)
     run.post(ex, outs, pre2, {'matched-only-if-the-namespace-is-admitted': sound, 'without-exclusions-matched-exactly-then': exact})
+
+
+# ------------------------------------------------------------------ Xsd11AnyAttribute.is_matching: the XSD 1.1 attribute wildcard's own name test (C16, C03)
+t = Target('wildcards.Xsd11AnyAttribute.is_matching', ['C16', 'C03'], F, 'Xsd11AnyAttribute.is_matching',
+           note='whatever the ##defined exclusion says, an attribute name is matched ONLY IF it is not listed in notQName and its namespace - that of an expanded or empty name, the default '
+                'namespace of a local name, else the absent namespace - is admitted by the constraint; when the ##defined exclusion does not apply (keyword absent, or no global attribute of '
+                'that name) it is matched EXACTLY then',
+           assumes=['is_namespace_allowed as proved (callee contract); the global attribute map and the schema identity of a declaration are uninterpreted'])
+
+
+@t.symbolic
+def _(run):
+    ex, st, pre, A0, tw, to = setup(run, qual='Xsd11AnyAttribute.is_matching')
+    name = z3.String('name'); dns = z3.String('dns')
+    is_global, is_tuple, same_schema = z3.Bool('name_is_a_global_attribute'), z3.Bool('declaration_is_still_staged'), z3.Bool('declared_in_the_same_schema_document')
+    has_defined = z3.Bool('notQName_has_the_defined_keyword')
+    st.env.update(name=VStr(name), default_namespace=VOpt(z3.Bool('dns_none'), VStr(dns)))       # name is not None (None: False at once)
+    orig_compare, orig_cmp, orig_sub = ex.e_Compare, ex.cmp, ex.e_Subscript
+
+    def e_Compare(e, s):
+        src = ast.unparse(e)
+        if src == 'name in self.maps.attributes': return VBool(is_global)
+        if src == "'##defined' in self.not_qname": return VBool(has_defined)      # (the well-formedness predicate keeps keywords out of the modelled name set: the keyword is its own input)
+        if src in ('xsd_attribute[1] is self.schema', 'xsd_attribute.schema is self.schema'): return VBool(same_schema)
+        if src in ('xsd_attribute[1] is not self.schema', 'xsd_attribute.schema is not self.schema'): return VBool(z3.Not(same_schema))
+        return orig_compare(e, s)
+    ex.e_Compare = e_Compare
+
+    def e_Subscript(e, s):
+        if ast.unparse(e) == 'self.maps.attributes[name]': return VObj('xsd_attribute')
+        return orig_sub(e, s)
+    ex.e_Subscript = e_Subscript
+    st.objf['xsd_attribute'] = {}
+    ex.callees['isinstance'] = lambda e, s, r, a, k: VBool(is_tuple)
+    ex.names['tuple'] = OPAQUE
+    Dself = lambda xx: den(A0['self', 'namespace'], A0['self', 'not_namespace'], tw, xx)
+    pre2 = z3.And(pre, ns_of(name) != XSI, dns != XSI, ns_of(name) != ANY, ns_of(name) != OTHER, dns != ANY, dns != OTHER, z3.Not(z3.PrefixOf(SV('##'), name)),
+                  z3.Implies(z3.And(z3.Not(z3.Bool('dns_none')), dns != E, name != E, z3.Not(z3.PrefixOf(SV('{'), name))), ns_of(z3.Concat(SV('{'), dns, SV('}'), name)) == dns))
+    outs = ex.run(st, pre2)
+    ns_ok = z3.If(z3.Or(name == E, z3.PrefixOf(SV('{'), name)), Dself(ns_of(name)), z3.If(z3.Or(z3.Bool('dns_none'), dns == E), Dself(E), Dself(dns)))
+    full = z3.If(z3.Or(name == E, z3.PrefixOf(SV('{'), name), z3.Bool('dns_none'), dns == E), name, z3.Concat(SV('{'), dns, SV('}'), name))
+    listed = A0['self', 'not_qname'][full]
+    no_exclusion = z3.Or(z3.Not(has_defined), z3.Not(is_global))
+
+    def sound(kind, v, s): return z3.Implies(v.t, z3.And(ns_ok, z3.Not(listed))) if kind == 'return' else z3.BoolVal(False)
+    def exact(kind, v, s): return z3.Implies(no_exclusion, v.t == z3.And(ns_ok, z3.Not(listed))) if kind == 'return' else z3.BoolVal(False)
+    run.post(ex, outs, pre2, {'matched-only-if-admitted-and-not-listed': sound, 'without-the-defined-exclusion-matched-exactly-then': exact})
